@@ -34,6 +34,11 @@ def units_for(prop, tier):
     res = []
     for p in sorted(glob.glob(os.path.join(VERIF, 'verus', 'units', '*.unit'))):
         txt = extract.unit_text(p)
+        for inc in re.findall(r'^@@(?:include|contractfile)\s+(\S+)', txt, re.M):
+            try:
+                txt += open(os.path.join(VERIF, 'verus', inc)).read()
+            except OSError:
+                pass
         if re.search(r'//\s*@[C0-9,]*\b' + prop + r'\b', txt):
             m = re.search(r'^@@#\s*tier:\s*(\w+)', txt, re.M)
             utier = m.group(1) if m else 'quick'
@@ -110,7 +115,8 @@ def run_verus(unit_path, canary=False):
     if res['undecided_fns'] and not res['failures']:
         res.update(status='undecided', reason='solver resource limit exceeded in ' + ', '.join(short_fn(x) for x in res['undecided_fns']))
         return res
-    if vr.get('success') and not res['failures'] and res['verified'] > 0:
+    clean = vr.get('success') or (vr.get('success') is None and not vr.get('encountered-error') and vr.get('errors', 1) == 0)
+    if clean and not res['failures'] and res['verified'] > 0:
         res['status'] = 'ok'
     elif res['failures']:
         res['status'] = 'failed'
@@ -301,6 +307,8 @@ def fn_is_verified_here(run, fn):
 
 def has_body(em, fn):
     info = em.functions[fn]
+    if info.get('lemma'):
+        return False
     for idx in range(info['first_line'] - 1, info.get('last_line', info['first_line'])):
         o = em.origin[idx]
         if o['fn'] == fn and o['kind'] == 'body':
